@@ -519,7 +519,7 @@ func (p *Packer) validSymlink(root, path, target string) (bool, error) {
 	}
 
 	// Target falls within root.
-	if strings.HasPrefix(absTarget, absRoot) {
+	if pathWithin(absTarget, absRoot) {
 		return true, nil
 	}
 
@@ -550,6 +550,19 @@ func (p *Packer) validSymlink(root, path, target string) (bool, error) {
 			path, target,
 		),
 	}
+}
+
+// pathWithin reports whether target is dir itself or lies below it. Both must
+// be cleaned paths. Unlike a plain prefix test it compares whole path segments,
+// so "/a/bc" is not within "/a/b".
+func pathWithin(target, dir string) bool {
+	if target == dir {
+		return true
+	}
+	if !strings.HasSuffix(dir, string(os.PathSeparator)) {
+		dir += string(os.PathSeparator)
+	}
+	return strings.HasPrefix(target, dir)
 }
 
 // checkFileMode is used to examine an os.FileMode and determine if it should
